@@ -87,7 +87,7 @@ func configs(thorough bool) []confSpec {
 func part2(r *ev.Run) {
 	r.Assume("Part 2 servers are built in-process exactly as perkeepd does (serverinit.Load of a high-level config + InstallHandlers) and served over loopback TCP; the only change to the generated low-level config is that the index's sorted store is opened by the harness from the same sorted config and passed through, so that its rows can be dumped")
 	r.Assume("credential-requiring auth modes used: userpass:<u>:<p>, basic:<u>:<p>, token:<t>, userpass with vivify=; none has the +localhost option (localhost, devauth and userpass+localhost authenticate loopback clients and are excluded; tailscale needs a network)")
-	r.Assume("/debug/vars and /debug/pprof/ are installed without authentication outside the configured prefixes; they are treated as observed public surface (scanned for blob data, not required to refuse)")
+	r.Assume("/debug/vars and /debug/pprof/ report server status (counters, goroutine dumps, command line) and are therefore required to refuse unauthenticated requests like their siblings /debug/goroutines, /debug/config and /debug/logs")
 	r.Assume("publish / scanning-cabinet app handlers need external binaries and cloud storages need a network: not constructible offline, not covered")
 	specs := configs(r.Thorough())
 	root := ev.Scratch("c17-servers")
